@@ -165,6 +165,11 @@ func c03Check(pg *Prog, exitCodeFlag bool) func(x *vlab.Exec) []vlab.Violation {
 			} else if x.Code != want && !multiFail(pg, ev) {
 				out = append(out, vlab.V("C03", "status_class", fmt.Sprintf("got%d:want%s:%s", x.Code, wantStr(want, exitCodeFlag), failPos(pg, ev)),
 					fmt.Sprintf("invocation ended with status %d (err=%q); expected %d", x.Code, x.ErrStr, want)))
+			} else if multiFail(pg, ev) {
+				// several commands failed: which one is reported depends on the schedule, the class does not
+				if v := severalFailuresStatus(pg, ev, x, exitCodeFlag); v != nil {
+					out = append(out, *v)
+				}
 			}
 		} else {
 			if x.Code != 0 {
@@ -178,6 +183,25 @@ func c03Check(pg *Prog, exitCodeFlag bool) func(x *vlab.Exec) []vlab.Violation {
 		}
 		return out
 	}
+}
+
+func severalFailuresStatus(pg *Prog, ev []vlab.PE, x *vlab.Exec, exitCodeFlag bool) *vlab.Violation {
+	codes := map[int]bool{}
+	for _, e := range ev {
+		if e.K == 'F' && e.Task != "" && isFailure(pg, e) {
+			j, _ := e.CmdIndex()
+			codes[pg.ExitOf(e.Inst(), j)] = true
+		}
+	}
+	if !exitCodeFlag && x.Code != 201 {
+		v := vlab.V("C03", "status_class", fmt.Sprintf("got%d:want201:several_failures", x.Code), fmt.Sprintf("several commands failed; the invocation ended with status %d (err=%q), expected the task-run class 201", x.Code, x.ErrStr))
+		return &v
+	}
+	if exitCodeFlag && !codes[x.Code] {
+		v := vlab.V("C03", "status_class", fmt.Sprintf("got%d:want_own_code:several_failures", x.Code), fmt.Sprintf("several commands failed with %v; with --exit-code the invocation ended with status %d (err=%q)", codes, x.Code, x.ErrStr))
+		return &v
+	}
+	return nil
 }
 
 func rootInst(x *vlab.Exec) *vlab.Inst { return &vlab.Inst{Task: "root", VP: "@"} }
@@ -242,6 +266,13 @@ func c03Progs() map[string]*Prog {
 		{Name: "root", Deps: []Ref{D("a"), D("sib")}, Cmds: []C{P(), Call("x")}},
 		{Name: "a", Deps: []Ref{D("b")}, Cmds: []C{P()}},
 		{Name: "b", Cmds: []C{P(), F(), P()}},
+		{Name: "x", Cmds: []C{P()}},
+		sib,
+	}}
+	// the failing dependency is declared after a sibling that is still busy when it fails
+	m["fail-in-dep-declared-last"] = &Prog{Tasks: []*T{
+		{Name: "root", Deps: []Ref{D("sib"), D("a")}, Cmds: []C{P(), Call("x")}},
+		{Name: "a", Cmds: []C{P(), F(), P()}},
 		{Name: "x", Cmds: []C{P()}},
 		sib,
 	}}
@@ -314,6 +345,47 @@ func c03Units(tier string) []*Unit {
 				us = append(us, &Unit{Name: sc.Name, Sc: sc, Bound: bound, Prune: true, Check: both(c03Check(pg, xflag), c01Check(pg)), Weight: len(pg.Tasks), Shards: shards})
 			}
 		}
+	}
+	// --parallel with two top-level tasks that both fail by themselves
+	for _, xflag := range []bool{false, true} {
+		xflag := xflag
+		pg := &Prog{Tasks: []*T{
+			{Name: "r1", Cmds: []C{P(), {Exit: 3}, P()}},
+			{Name: "r2", Cmds: []C{P(), {Exit: 4}, P()}},
+		}}
+		sc := scen(fmt.Sprintf("parallel-two-failing-roots/cinf/x=%v", xflag), pg, vlab.Options{Parallel: true, ExitCodeFlag: xflag}, "r1", "r2")
+		us = append(us, &Unit{Name: sc.Name, Sc: sc, Bound: 2, Prune: true, Weight: 2, Check: func(x *vlab.Exec) []vlab.Violation {
+			out := generic("C03", x)
+			if x.Res.Deadlock || x.Res.Horizon || x.Res.Panic != "" {
+				return out
+			}
+			ev := vlab.ParseTrace(x.Trace)
+			for _, e := range ev {
+				if j, _ := e.CmdIndex(); e.K == 'S' && j == 2 {
+					out = append(out, vlab.V("C03", "later_command_started", "same_task", fmt.Sprintf("%s entry 2 started after entry 1 had failed", e.Inst())))
+				}
+			}
+			if x.Code == 0 {
+				out = append(out, vlab.V("C03", "status_zero_after_failure", "", "both tasks fail but the invocation ended with status 0"))
+			} else if v := severalFailuresStatus(pg, ev, x, xflag); v != nil && multiFail(pg, ev) {
+				out = append(out, *v)
+			} else if !multiFail(pg, ev) {
+				want := 201
+				if xflag {
+					want = 0
+					for _, e := range ev {
+						if e.K == 'F' && isFailure(pg, e) {
+							j, _ := e.CmdIndex()
+							want = pg.ExitOf(e.Inst(), j)
+						}
+					}
+				}
+				if x.Code != want {
+					out = append(out, vlab.V("C03", "status_class", fmt.Sprintf("got%d:want%s:parallel_roots", x.Code, wantStr(want, xflag)), fmt.Sprintf("status %d (err=%q), expected %d", x.Code, x.ErrStr, want)))
+				}
+			}
+			return out
+		}})
 	}
 	us = append(us, c03CLIUnits(tier)...)
 	return us
